@@ -21,7 +21,8 @@ OUTSIDE = ('only the listed kernels (SPSCRingBuffer, MpmcRingBuffer, ChaseLevDeq
            'shows are not modelled (explored interleavings are sequentially consistent, happens-before is computed from the declared orders); '
            'plain accesses of the library other than payload accesses (e.g. internal plain fields) are not observed; the C++20 release-sequence '
            'rule is only an informational instance (tier cxx20)')
-SEQ = {'engine': 'cbmc-seq', 'spin_loops': True, 'timeout': 1500}
+SEQ = {'engine': 'cbmc-seq', 'spin_loops': True, 'timeout': 1700, 'thorough': {'steps': 4}}
+TH = ['thorough']   # heavier variants: thorough tier only
 
 
 def RT(atoms, probes, **kw):
@@ -48,7 +49,7 @@ INSTANCES = [
          bounds='RWLock: T1 lock/write/unlock, T2 lock_shared/read/unlock_shared, main try_lock_shared/read; 3 rounds'),
     dict(SEQ, name='rwlock_try', src='rwlock_race.cpp', rt_defs=RT(1, 1), defs={'VF_KIND': 1}, nthreads=3, steps=3, unwind=2,
          bounds='RWLock: T1 try_lock/write/unlock, T2 lock_shared/read/unlock_shared, main lock/write/unlock; 3 rounds'),
-    dict(SEQ, name='rwlock_updown', src='rwlock_race.cpp', rt_defs=RT(1, 1), defs={'VF_KIND': 2}, nthreads=3, steps=3, unwind=2,
+    dict(SEQ, name='rwlock_updown', tiers=TH, src='rwlock_race.cpp', rt_defs=RT(1, 1), defs={'VF_KIND': 2}, nthreads=3, steps=3, unwind=2,
          bounds='RWLock: main lock_shared/read/lock_upgrade/write/lock_downgrade/read/unlock_shared, T1 try_lock_shared, T2 lock_shared; 3 rounds'),
     dict(SEQ, name='chaselev', src='chaselev_race.cpp', rt_defs=RT(2, 2), defs={'VF_KIND': 0, 'VF_CAP': 2}, nthreads=3, steps=3, unwind=2,
          bounds='ChaseLevDeque<probe,2>, no wrap-around: owner push,push,pop,(join),pop; two stealers one try_steal each; 3 rounds'),
@@ -58,8 +59,10 @@ INSTANCES = [
          bounds='as chaselev, but later plain stores of the releasing thread do not continue a release sequence (C++20)'),
     dict(SEQ, name='chaselev_wrap', src='chaselev_race.cpp', rt_defs=RT(2, 1), defs={'VF_KIND': 1, 'VF_CAP': 1}, nthreads=2, steps=3, unwind=2,
          bounds='ChaseLevDeque<probe,1>, slot reuse: owner push,pop,push,(join),pop; one stealer try_steal; 3 rounds'),
-    dict(SEQ, name='mpmc_reuse', src='mpmc_race.cpp', defs={'VF_KIND': 0}, rt_defs=RT(4, 2), nthreads=2, steps=3, unwind=2,
+    dict(SEQ, name='mpmc_pub', src='mpmc_race.cpp', defs={'VF_KIND': 2}, rt_defs=RT(4, 2), nthreads=2, steps=3, unwind=2,
+         bounds='MpmcRingBuffer<probe,2>: producer 1 emplace, main 1 pop concurrently + 1 pop after join; 3 rounds'),
+    dict(SEQ, name='mpmc_reuse', tiers=TH, src='mpmc_race.cpp', defs={'VF_KIND': 0}, rt_defs=RT(4, 2), nthreads=2, steps=3, unwind=2,
          bounds='MpmcRingBuffer<probe,2>: producer 3 emplaces (slot 0 reused), main 1 pop concurrently + 2 pops after join; 3 rounds'),
-    dict(SEQ, name='mpmc_2p', src='mpmc_race.cpp', defs={'VF_KIND': 1}, rt_defs=RT(4, 2), nthreads=4, steps=3, unwind=2,
+    dict(SEQ, name='mpmc_2p', tiers=TH, src='mpmc_race.cpp', defs={'VF_KIND': 1}, rt_defs=RT(4, 2), nthreads=4, steps=3, unwind=2,
          bounds='MpmcRingBuffer<probe,2>: two producers 1 emplace each, consumer 2 pops, 1 pop by main after join; 3 rounds'),
 ]
